@@ -463,3 +463,191 @@ def _strip_globals(argv):
 def argv_tags(beh):
     c = beh[0]
     return frozenset([c["a"] + ":" + (",".join(c["v"]) if c["a"] == "Vec" else c["k"])])
+
+
+# --------------------------------------------------------------------------------------------------- C16 tracker
+TRK_FAMILIES = ["plain", "crlf", "nonl", "multibyte", "long", "blankfresh", "repeated", "punct", "combining"]
+TRK_PRIORS = ["exact", "merged", "unsorted", "overlap", "oob", "zero", "offb"]
+AUTHOR_ID = {"H": "human", "A1": "A1", "A2": "A2"}
+
+
+def trk_content(u, fam, nold):
+    """-> list of (text, is_identity): identity words are unique to the line (they carry its uid); the rest
+    (punctuation, emoji, combining marks) stresses the tokenizer and the byte arithmetic but is shared between
+    lines, so the token-level diff may legitimately keep it with the old author of a replaced line"""
+    if fam == "multibyte":
+        return [("é%d日" % u, True), (" ", False), ("ж%dx" % u, True), (" ", False), ("ß%dq" % u, True)]
+    if fam == "combining":       # shared emoji / combining marks / punctuation (not strict)
+        return [("é%d日" % u, True), (" ", False), ("\U0001F600", False), ("ж%dx" % u, True), (" e\u0301(", False),
+                ("ß%dq" % u, True), (");", False)]
+    if fam == "long":
+        return [(("L%d_" % u) * 1500, True), (" ", False), ("end%d" % u, True)]
+    if fam == "blankfresh" and u > nold:
+        return []
+    if fam == "repeated" and u > nold and nold > 0:
+        return [("tok1a", True), (" ", False), ("tok1b", True), (" ", False), ("tok1c", True)]
+    if fam == "punct":           # shared punctuation: the token-level diff has several equally good answers
+        return [("tok%da" % u, True), (" ", False), ("tok%db" % u, True), ("(", False), ("tok%dc" % u, True), (");", False)]
+    return [("tok%da" % u, True), (" ", False), ("tok%db" % u, True), (" ", False), ("tok%dc" % u, True)]
+
+
+def trk_render(lines, fam, nold, salt, is_new):
+    """-> (text, line byte spans, identity byte ranges per line)"""
+    eol = "\r\n" if fam == "crlf" else "\n"
+    out = []
+    spans = []
+    idents = []
+    pos = 0
+    for i, (u, w) in enumerate(lines):
+        parts = trk_content(u, fam, nold)
+        ind = ["", "    ", "\t  "][w if w == 0 else 1 + salt % 2]
+        trail = " " if (w and salt % 3 == 0) else ""
+        last = i == len(lines) - 1
+        end = "" if (last and fam == "nonl" and (is_new or salt % 2 == 0)) else eol
+        p = pos + len(ind.encode("utf-8"))
+        ids = []
+        body = ""
+        for txt, ident in parts:
+            b = len(txt.encode("utf-8"))
+            if ident:
+                ids.append((p, p + b))
+            p += b
+            body += txt
+        s = ind + body + trail + end
+        b = len(s.encode("utf-8"))
+        spans.append((pos, pos + b))
+        idents.append(ids)
+        pos += b
+        out.append(s)
+    return "".join(out), spans, idents
+
+
+def trk_prior(old_text, spans, oa, shape, salt):
+    n = len(old_text.encode("utf-8"))
+    attrs = []
+    for (s, e), a in zip(spans, oa):
+        if a == "H" and salt % 2:
+            continue                   # a person's line may simply be unattributed
+        attrs.append({"s": s, "e": e, "a": AUTHOR_ID[a], "ts": 1})
+    if shape == "merged":
+        m = []
+        for x in attrs:
+            if m and m[-1]["a"] == x["a"] and m[-1]["e"] == x["s"]:
+                m[-1]["e"] = x["e"]
+            else:
+                m.append(dict(x))
+        attrs = m
+    elif shape == "unsorted":
+        attrs = list(reversed(attrs))
+    elif shape == "overlap":
+        attrs = [{"s": 0, "e": n, "a": "A9", "ts": 0}] + attrs + [{"s": max(0, n // 3), "e": max(0, 2 * n // 3), "a": "A8", "ts": 3}]
+    elif shape == "oob":
+        attrs = attrs + [{"s": n + 10, "e": n + 50, "a": "A9", "ts": 1}, {"s": max(0, n - 3), "e": n + 100, "a": "A8", "ts": 1},
+                         {"s": n, "e": n, "a": "A7", "ts": 1}]
+    elif shape == "zero":
+        attrs = attrs + [{"s": k, "e": k, "a": "A9", "ts": 1} for k in (0, n // 2, n, n + 1)]
+    elif shape == "offb":
+        attrs = [dict(x, s=x["s"] + 1, e=max(x["s"] + 1, x["e"] - 1)) for x in attrs] + [{"s": 1, "e": 2, "a": "A9", "ts": 1}]
+    return attrs
+
+
+def _norm(a):
+    return {"human": "H"}.get(a, a)
+
+
+def trk_line_authors(idents, attrs):
+    """per line: the author of its identity words according to the returned character ranges ("blank" if none)"""
+    res = []
+    for ids in idents:
+        authors = set()
+        for (s0, e0) in ids:
+            # every byte of the word must be covered by the same winning author
+            for off in range(s0, e0):
+                cover = [x for x in attrs if x["s"] <= off < x["e"]]
+                if cover:
+                    best = max(cover, key=lambda x: x["ts"])
+                    authors.add(_norm(best["a"]))
+                else:
+                    authors.add("H")
+        res.append("blank" if not ids else (authors.pop() if len(authors) == 1 else "mixed"))
+    return res
+
+
+def execute_tracker(args):
+    gaifn, scratch, cfg, behaviour, run_id = args
+    info = {"run": run_id}
+    try:
+        c = behaviour[0]
+        salt = cfg.get("salt", 0)
+        fam = cfg.get("render", "plain")
+        shape = cfg.get("filefam", "exact")
+        if fam not in ("multibyte", "combining") and shape == "offb":
+            shape = "exact"
+        nold = 10
+        old_text, ospans, _ = trk_render(c["old"], fam, nold, salt, False)
+        new_text, nspans, nidents = trk_render(c["new"], fam, nold, salt, True)
+        prior = trk_prior(old_text, ospans, c["oa"], shape, salt)
+        rep = AUTHOR_ID[c["r"]]
+        r = call([{"id": 1, "op": "trk_update", "old": old_text, "new": new_text, "attrs": prior, "author": rep, "ts": 2}],
+                 timeout=300)[0]
+        strict = shape in ("exact", "merged", "unsorted") and fam not in ("repeated", "punct", "combining")
+        ob = old_text.encode("utf-8")
+
+        def on_boundary(k):
+            return k > len(ob) or k == len(ob) or (ob[k] & 0xC0) != 0x80
+        obs = {"panic": "panic" in r, "err": "err" in r, "bounded": True, "strict": strict, "rtOK": True, "la": [], "tl": [],
+               "priorOnBoundary": all(on_boundary(x["s"]) and on_boundary(x["e"]) for x in prior)}
+        info["family"], info["prior"] = fam, shape
+        if "panic" in r:
+            info["panic"] = r["panic"]
+        if "attrs" in r:
+            attrs = r["attrs"]
+            n = r["len"]
+            obs["bounded"] = all(x["s"] <= x["e"] <= n and x["sb"] and x["eb"] for x in attrs)
+            la = trk_line_authors(nidents, attrs)
+            obs["la"] = la
+            tl = ["H"] * len(la)
+            for x in r["lines"]:
+                for k in range(x["s"], x["e"] + 1):
+                    if 1 <= k <= len(tl):
+                        tl[k - 1] = _norm(x["a"])
+                    else:
+                        obs["bounded"] = False          # a line attribution outside the text
+            obs["tl"] = [("blank" if la[i] == "blank" else tl[i]) for i in range(len(la))]
+            # the other entry points on the same data: fill-in of unattributed ranges, and lines -> chars -> lines
+            more = call([
+                {"id": 2, "op": "trk_unattr", "content": new_text, "attrs": [dict(x) for x in attrs], "author": rep, "ts": 3},
+                {"id": 3, "op": "trk_from_lines", "content": new_text, "lines": r["lines"], "ts": 4},
+                {"id": 4, "op": "trk_from_lines", "content": new_text,
+                 "lines": r["lines"] + [{"s": 0, "e": 0, "a": "A9", "o": None}, {"s": 5, "e": 2, "a": "A9", "o": None},
+                                         {"s": len(la) + 1, "e": len(la) + 9, "a": "A9", "o": None}], "ts": 4},
+                {"id": 5, "op": "trk_to_lines", "content": new_text, "attrs": prior},
+            ], timeout=300)
+            for m in more:
+                if "panic" in m:
+                    obs["panic"] = True
+                    info["panic"] = m["panic"]
+            if "attrs" in more[0]:
+                obs["bounded"] = obs["bounded"] and all(x["s"] <= x["e"] <= n and x["sb"] and x["eb"] for x in more[0]["attrs"])
+            if "back" in more[1]:
+                def expand(ls):
+                    s = set()
+                    for x in ls:
+                        if x["a"] == "human":
+                            continue            # the AI lines are what must survive
+                        for k in range(x["s"], x["e"] + 1):
+                            s.add((k, x["a"]))
+                    return s
+                obs["rtOK"] = expand(more[1]["back"]) == expand(r["lines"])
+                obs["bounded"] = obs["bounded"] and all(x["s"] <= x["e"] <= n and x["sb"] and x["eb"] for x in more[1]["attrs"])
+        events = [{"ev": "reset", "run": run_id},
+                  {"ev": "Upd", "old": c["old"], "oa": c["oa"], "new": c["new"], "r": c["r"], "kind": c["kind"], "obs": obs}]
+        return events, info, None
+    except Exception as e:
+        import traceback
+        return None, info, "%s\n%s" % (e, traceback.format_exc())
+
+
+def trk_tags(beh):
+    c = beh[0]
+    return frozenset([json.dumps([c["old"], c["oa"], c["new"], c["r"]])])
